@@ -232,7 +232,9 @@ def check_C07(tier, seed):
             for bounds, opn in items:
                 st, sc = scripts_for(vlib.family(s), bounds, opn)
                 # (B) runs with multi-byte UTF-8 names (driver flag u8: tokens are translated both ways)
-                ws.append(Workload(s, sc, list(N4), flags={"u8": True} if opn != N4 else None, origin=st["instance"]))
+                # (every second schema: names that are LIKE patterns / case variants of each other instead, driver flag nameset=like)
+                ws.append(Workload(s, sc, list(N4), flags=({"nameset": "like"} if vlib.ALL.index(s) % 2 else {"u8": True}) if opn != N4 else ({"nameset": "like"} if vlib.ALL.index(s) % 2 == 0 else None),
+                                   origin=st["instance"]))
         # (R) random long histories of the specification (tlc -simulate), larger forests
         nr, depth = (30, 30) if tier == "quick" else (150, 50)
         rcache = {}
@@ -244,7 +246,7 @@ def check_C07(tier, seed):
             st, sc = rcache[fam]
             r = random.Random(seed * 7919 + vlib.ALL.index(s))
             ws.append(Workload(s, r.sample(sc, min(nr, len(sc))), ["a", "b", "c", "", "x;y"], tag="r", origin=st["instance"],
-                               flags={"u8": True} if vlib.ALL.index(s) % 2 == 0 else None))
+                               flags=[{"u8": True}, {"nameset": "like"}, None][vlib.ALL.index(s) % 3]))
         smoke_rest(ws, list(plan), tier, lambda s: Workload(s, random.Random(seed + vlib.ALL.index(s)).sample(rcache[vlib.family(s)][1], 6),
                                                              ["a", "b", "c", "", "x;y"], tag="v", origin=rcache[vlib.family(s)][0]["instance"]))
         return ws
@@ -355,6 +357,18 @@ def check_C08(tier, seed):
             r = random.Random(seed * 104729 + vlib.ALL.index(s))
             for st, sc in rcache[fam]:
                 ws.append(Workload(s, r.sample(sc, min(nr, len(sc))), ["a", "b", "c", "d"], tag="r", origin=st["instance"]))
+        # (K) the bulk entry point: the membership graphs and random histories with their runs of add_track folded into
+        # add_tracks calls whose ranges repeat tracks (libcheck.bulkify; Library!AddTracks)
+        for s in (vlib.REPR if tier == "quick" else vlib.ALL):
+            fam = vlib.family(s)
+            r = random.Random(seed * 15485863 + vlib.ALL.index(s))
+            st, sc = cache[("mem", fam)]
+            bk = libcheck.bulkify(sc, r)
+            for st2, sc2 in rcache[fam]:
+                bk += libcheck.bulkify(r.sample(sc2, min(nr, len(sc2))), r)
+            if tier == "quick" and len(bk) > 60:
+                bk = r.sample(bk, 60)
+            ws.append(Workload(s, bk, ["a", "b", "c", "d"], tag="k", origin=st["instance"] + " + bulkify"))
         # the same operations from a fresh library (ids coincide) as a second instance
         for s in (full if tier != "quick" else ["1.18.0o", "2.21.2"]):
             st, sc = scripts_for(vlib.family(s), 2, 2, 5, "none")
@@ -474,6 +488,11 @@ def check_C16(tier, seed):
             ws.append(Workload(s, pick2, ["a", "d"], mode="mem", flags={"rep": True}, origin=st2["instance"]))
             pick3 = (sc + sc2) if len(sc + sc2) <= ndisk else r.sample(sc + sc2, ndisk)
             ws.append(Workload(s, pick3, libcheck.NAMES4 + ["d"], mode="disk", flags={"rep": True, "reopen": True}, origin=st["instance"]))
+            # (W) the same on a library whose database files another SQLite client has switched to WAL journal mode (the journal mode is
+            # a property of the file; Engine DJ itself uses it): loading, observing and closing leave the files byte-identical
+            nwal = 15 if tier == "quick" else 100
+            ws.append(Workload(s, pick3 if len(pick3) <= nwal else r.sample(pick3, nwal), libcheck.NAMES4 + ["d"], mode="disk", tag="w",
+                               flags={"rep": True, "reopen": True, "wal": True}, origin=st["instance"] + ", WAL-mode files"))
 
         def smoke(s):
             st, sc, st2, sc2 = cache[vlib.family(s)]
@@ -660,6 +679,14 @@ def check_C10(tier, seed):
         for k in range(20 if tier == "quick" else 200):
             a, b = trackchecks.random_snapshot(r, k), trackchecks.random_snapshot(r, k + 100000)
             scripts.append([mk("create", snap=a), mk("reopen"), mk("update", t=1, snap=b), mk("reopen"), mk("create", snap=b), mk("reopen")])
+        # a long track: one hour at 44.1 kHz with the high-resolution waveform Engine recommends for it (378 000 entries, 2.2 MB that
+        # do not compress) - the largest rows a real library holds; limits that live on a connection rather than in the file
+        # (seeded change C10h: a length limit set on loaded connections only) show after the reload and nowhere else
+        hour = dict(bases["full"], relative_path=["long/hour.mp3"], sample_count=["158760000"], sample_rate=["40e5888000000000"],
+                    duration=[3600], waveform={"n": 378000, "seed": 11, "opaque": False})
+        scripts.append([mk("create", snap=hour), mk("reopen"), mk("set", t=1, f="title", v=["after reload"]), mk("reopen"),
+                        mk("update", t=1, snap=dict(hour, waveform={"n": 378000, "seed": 12, "opaque": False})), mk("reopen"),
+                        mk("create", snap=dict(hour, relative_path=["long/hour2.flac"])), mk("reopen")])
         ws = []
         for s in (vlib.quick_schemas(seed, 1) if tier == "quick" else vlib.ALL):
             ws.append(Workload(s, scripts, [], mode="disk", tag="tk", origin=res["instance"]))
